@@ -159,6 +159,74 @@ def make_body(max_len, sup_len, ALPHA=ALPHA, own_report=False):
     return body
 
 
+def _verdict(ctx, fbs, sups, case):
+    elig = [f for f in fbs if ref.eligible(f, sups)]
+    want = all(bool(f.correct) for f in elig)
+    ctx.step('simple.resolve')
+    try:
+        r = simple.resolve()
+    except Exception as e:
+        ctx.fail({'symptom': 'resolve raised', 'exception': type(e).__name__}, case=case, message=str(e)[:200])
+        return
+    js = r.to_json()
+    got = (r.correct, r.success, js['correct'], js['success'])
+    ctx.outcome((want, len(elig) == 0))
+    if not all(g is want for g in got):
+        blame = 'reported correct although an eligible feedback is not correct' if want is False else \
+            'reported incorrect although every eligible feedback is correct'
+        ctx.fail({'symptom': 'wrong correctness', 'direction': blame, 'consistent': len(set(got)) == 1}, case=case,
+                 expected=want, got=got, eligible=[ref.describe(f) for f in elig][:4])
+
+
+LARGE_FILL = [dict(via='explain', activate=False), dict(via='compliment'), dict(category='instructor', muted=True),
+              dict(category='complete', correct=True, valence=1), dict(via='gently', activate=False)]
+LARGE_LAST = [dict(category='runtime'), dict(category='specification'), dict(via='set_correct'), dict(via='compliment'),
+              dict(category='instructor', muted=True), dict(via='gently')]
+LARGE_N = [9, 10, 11, 99, 100, 101, 130]
+
+
+def body_large(ctx):
+    """Many feedbacks that do not decide the verdict, created before (and after) the one that does."""
+    fill = LARGE_FILL[ctx.choose(len(LARGE_FILL), 'filler')]
+    n = LARGE_N[ctx.choose(len(LARGE_N), 'how-many')]
+    last = LARGE_LAST[ctx.choose(len(LARGE_LAST), 'last')]
+    tail = ctx.choose(2, 'fillers-after-too')
+    cmds.clear_report()
+    ctx.step(('create', n, fill, last))
+    fbs = [c01._mk(fill, k) for k in range(n)] + [c01._mk(last, n)]
+    if tail:
+        fbs += [c01._mk(fill, n + 1 + k) for k in range(n)]
+    case = {'fillers': '%d x %r' % (n, fill), 'then': last, 'fillers_after_too': bool(tail), 'suppressions': []}
+    ctx.observe(repr(case))
+    ctx.set_sample(case)
+    ctx.mark_nontrivial(repr(case))
+    _verdict(ctx, fbs, [], case)
+
+
+def body_scripts(ctx):
+    """A negative feedback whose label is written in another script, suppressed by that label (as spelled or
+    capitalised, with or without its category) next to an explicit set_correct()."""
+    lab = c01.SUP_LABELS[ctx.choose(len(c01.SUP_LABELS), 'label')]
+    form = ctx.choose(5, 'suppression')
+    first = bool(ctx.choose(2, 'sups-first'))
+    cap = lab[0].upper() + lab[1:]
+    sups = [[], [('instructor', lab, None)], [('instructor', cap, None)], [(None, lab, None)], [('Instructor', lab, None)]][form]
+    cmds.clear_report()
+    if first:
+        for (c, l, f) in sups:
+            cmds.suppress(c, l, f)
+    d1, d2 = dict(category='instructor', label=lab), dict(via='set_correct')
+    fbs = [c01._mk(d1, 0), c01._mk(d2, 1)]
+    if not first:
+        for (c, l, f) in sups:
+            cmds.suppress(c, l, f)
+    case = {'feedbacks': [d1, d2], 'suppressions': sups, 'suppress_first': first}
+    ctx.observe(repr(case))
+    ctx.set_sample(case)
+    ctx.mark_nontrivial(repr(case))
+    _verdict(ctx, fbs, sups, case)
+
+
 def bounds(tier):
     return {'alphabet': len(ALPHA), 'max_len': 3 if tier == 'quick' else 4, 'suppression_sets': len(SUPSETS),
             'suppression_cross_up_to_len': 2 if tier == 'quick' else 3}
@@ -174,5 +242,9 @@ def phases(tier):
                                                                                'compliment', 'set_correct', 'give_partial')],
                                           own_report=True), setup=_setup,
                   describe='sequences <=2 on a caller-owned Report passed by keyword or position, decoy on the global report'),
+            Phase('large-reports', body_large, setup=_setup, chunk=20,
+                  describe='9..130 feedbacks that do not decide the verdict around one that does'),
+            Phase('labels-in-other-scripts', body_scripts, setup=_setup,
+                  describe='suppression by a label with non-ASCII letters (lower/casefold/upper disagree on some)'),
             Phase('systematic-pairs', make_body(2, 2 if tier == 'thorough' else 1, SYS), setup=_setup,
                   describe='all sequences of <=2 over category x correct x valence x state (%d descriptors)' % len(SYS))]
